@@ -516,7 +516,17 @@ pub fn kcgr_lib(ctx: &Ctx) -> Stats {
         };
         let norm = rng.chance(1, 2);
         let nrec = rng.usize(1, if k >= 6 { 12 } else { 60 });
-        let recs = gen_records(&mut rng, nrec, k, None, 150, 0);
+        let mut recs = gen_records(&mut rng, nrec, k, None, 150, 0);
+        if idx % 25 == 3 {
+            // column counts that are exactly a power of ten (and one less / one more): a homopolymer record of
+            // 10^j + k - 1 (+-1) bases puts exactly that many windows into one column (number formatting widths)
+            let j = rng.usize(1, 5);
+            let c = 10usize.pow(j as u32) + [0usize, 0, 1][rng.below(3) as usize] - if rng.chance(1, 4) { 1 } else { 0 };
+            let b = *rng.pick(b"ACGT");
+            let at = rng.usize(0, recs.len() - 1);
+            recs[at].seq = vec![b; c + k - 1];
+            st.class("column count 10^j (+-1)");
+        }
         let sc = Scratch::new(ctx, "c12");
         let inp = sc.write("in.fa", &ser::to_fasta(&recs, &SerOpts::plain()));
         let threads = rng.usize(1, 16);
